@@ -193,6 +193,10 @@ class Signed(BitVector):
         if isinstance(rhs, (int, Integer)):
             rhs = Integer.decay(rhs)
             target_width = self.width
+        elif isinstance(rhs, Signed) and rhs.width < self.width:
+            # negate in the width of the result, the negated
+            # value might not be representable in a narrower operand
+            rhs = rhs.resize(self.width)
 
         rhs = -rhs
         return self.add(rhs, target_width)
